@@ -372,7 +372,7 @@ const (
 
 var codeText = []string{"ok", "term-not-durable", "vote-not-durable", "acked-entries-not-durable",
 	"durable-term-regressed", "durable-vote-changed-in-term", "acked-entries-truncated", "applied-before-durable",
-	"-", "-", "durable-entries-missing-after-crash", "completed-proposal-lost"}
+	"-", "-", "durable-entries-missing-after-crash", "lost-after-restart (completed proposal not visible, or replica not restartable)"}
 
 func voteOK(g *image, t, c uint64) bool {
 	return t < g.term || (g.term == t && g.vote == c && c != 0)
